@@ -17,11 +17,9 @@ CONSTANTS
   Export = TRUE
 INVARIANT LevelsStrictlyDecreasing
 INVARIANT LayerIsGeometricMean
-INVARIANT ArrayInputOrientation
 INVARIANT AltitudeStrictlyIncreasing
 INVARIANT GravityFallsOff
 INVARIANT StepRelation
-INVARIANT StepRelationAnyUnit
 INVARIANT MixAlignedWithLayers
 INVARIANT DensityIdealGas
 INVARIANT OneEntryPerLayer
